@@ -59,3 +59,39 @@ Theorem C08_req_rotation : forall cs prs,
       (combine (seq 0 (length cs)) cs).
 Proof. exact ReqRotation.req_rotation. Qed.
 Print Assumptions C08_req_rotation.
+
+(** * REQ's send over connections that answer each write from a script (Model/DirSend.v) *)
+From ZV Require Import Model.TrySend Model.RrSend Model.DirSend Proofs.RrSendProofs Proofs.DirSendProofs.
+
+Theorem C08_faulty_busy_refused : forall q m k, q_cur q = Some k -> req_send q m = (QBusy, q).
+Proof. exact req_busy_refused. Qed.
+Print Assumptions C08_faulty_busy_refused.
+
+(** a request that went out whole makes exactly that server owe the reply *)
+Theorem C08_faulty_sent_owes : forall q m k q', req_send q m = (QSent k, q') ->
+  q_cur q = None /\ q_cur q' = Some k /\ pget k (r_peers (q_base q)) <> None /\
+  (forall p, pget k (r_peers (q_base q)) = Some p -> k_buf (p_sink p) = [] ->
+     wire_of k (q_base q') = wire_of k (q_base q) ++ encode_frames (World.req_wrap m)).
+Proof. exact req_sent_owes. Qed.
+Print Assumptions C08_faulty_sent_owes.
+
+(** a request that failed, found no server or was abandoned leaves the socket owing nothing: the next request may go out *)
+Theorem C08_faulty_not_sent_owes_nothing : forall q m r q', req_send q m = (r, q') ->
+  (forall k, r <> QSent k) -> r <> QBusy -> q_cur q' = None.
+Proof. exact req_not_sent_owes_nothing. Qed.
+Print Assumptions C08_faulty_not_sent_owes_nothing.
+
+Theorem C08_faulty_touches_one : forall q m r q', req_send q m = (r, q') -> forall j, q_targets j r = false ->
+  wire_of j (q_base q') = wire_of j (q_base q) /\ pget j (r_peers (q_base q')) = pget j (r_peers (q_base q)).
+Proof. exact req_touches_one. Qed.
+Print Assumptions C08_faulty_touches_one.
+
+(** request, reply, request, ... over servers that accept every write visits them in queue order and restores the queue *)
+Theorem C08_faulty_full_round : forall ms q, q_cur q = None -> all_accepting (q_base q) -> NoDup (r_rr (q_base q)) ->
+  (forall k, In k (r_rr (q_base q)) -> pget k (r_peers (q_base q)) <> None) ->
+  length ms = length (r_rr (q_base q)) ->
+  Forall (fun m => lenN (encode_frames (World.req_wrap m)) < 2 ^ 63) ms ->
+  fst (req_cycles q ms) = map QSent (r_rr (q_base q)) /\
+  r_rr (q_base (snd (req_cycles q ms))) = r_rr (q_base q).
+Proof. exact req_full_round. Qed.
+Print Assumptions C08_faulty_full_round.
